@@ -47,6 +47,7 @@ type c16Order struct {
 	Kind  string `json:"kind"`  // http | tlsalpn | dns
 	Addr  int    `json:"addr"`  // index into the history's addresses (listener kinds)
 	Ident string `json:"ident"` // identifier (made unique per history at run time)
+	IP    bool   `json:"ip,omitempty"` // the identifier is an IP address (TLS-ALPN-01: the memory / token key is its reverse-mapping name)
 }
 
 type c16Step struct {
@@ -176,6 +177,12 @@ func (e *c16Env) setup(in c16In, r *rand.Rand) (*c16Hist, error) {
 		tok := c15Token(r)
 		ch := acme.Challenge{Type: typ, URL: fmt.Sprintf("https://ca.test/chal/%d", i), Status: "pending", Token: tok, KeyAuthorization: tok + "." + c15Token(r),
 			Identifier: acme.Identifier{Type: "dns", Value: ident}}
+		if o.IP {
+			ch.Identifier = acme.Identifier{Type: "ip", Value: fmt.Sprintf("10.%d.%d.%d", (e.seq>>8)&255, e.seq&255, i+1)}
+			if o.Ident == "v6" {
+				ch.Identifier.Value = fmt.Sprintf("2001:db8::%x:%x", e.seq, i+1)
+			}
+		}
 		h.chals = append(h.chals, ch)
 		if o.Kind == "dns" {
 			certmagic.VerifSeedZone(ch.DNS01TXTRecordName(), "example.")
@@ -789,6 +796,19 @@ func runC16(tier string, seed int64, outdir string, replay string) (retErr error
 			map[string]any{"shape": "two-side-by-side"}); err != nil {
 			return err
 		}
+	}
+	// ---- A'. IP identifiers: under TLS-ALPN-01 the memory / token key is the reverse-mapping name, not the identifier
+	for k, il := range c16Interleavings(2) {
+		kind := []string{"tlsalpn", "http"}[k%2]
+		id2 := []string{"v4", "v6"}[(k/2)%2]
+		if err := run(c16In{Addrs: []string{"free"}, Orders: []c16Order{{Kind: kind, Ident: "v4", IP: true}, {Kind: kind, Ident: id2, IP: true}}, Steps: il},
+			map[string]any{"shape": "ip-identifiers"}); err != nil {
+			return err
+		}
+	}
+	if err := run(c16In{Addrs: []string{"free"}, Orders: []c16Order{{Kind: "tlsalpn", Ident: "v6", IP: true}}, Steps: []c16Step{{Order: 0}, {Clean: true, Order: 0, Cancel: true}}},
+		map[string]any{"shape": "ip-identifiers"}); err != nil {
+		return err
 	}
 	// ---- B. three orders, two share an address
 	il3 := c16Interleavings(3)
